@@ -125,8 +125,61 @@ func (g *Gen) scalarSort(t types.Type) string {
 		return fmt.Sprintf("(Array %s %s)", g.idxSort(), g.scalarSort(u.Elem()))
 	case *types.TypeParam:
 		return refSort
+	case *types.Struct:
+		if n, ok := g.structKeySort(t); ok {
+			return n
+		}
 	}
 	panic(unsupported("no scalar sort for type %s", t))
+}
+
+// structKeySort: a struct type used as a map key (all fields scalar) is an SMT datatype with one constructor; two
+// keys are equal exactly when all their fields are. The declaration is emitted by prelude() when the sort occurs.
+func (g *Gen) structKeySort(t types.Type) (string, bool) {
+	st, ok := t.Underlying().(*types.Struct)
+	if !ok || st.NumFields() == 0 {
+		return "", false
+	}
+	name := "SK_" + fileSan.ReplaceAllString(g.typeName(t), "_")
+	name = strings.ReplaceAll(strings.ReplaceAll(name, "#", "_"), "@", "_")
+	if g.keySorts == nil {
+		g.keySorts = map[string]string{}
+	}
+	if _, ok := g.keySorts[name]; ok {
+		return name, true
+	}
+	var fs []string
+	okAll := true
+	func() {
+		defer func() {
+			if r := recover(); r != nil {
+				okAll = false
+			}
+		}()
+		for i, l := range g.leaves(t) {
+			if l.Part != "" {
+				okAll = false // slices inside keys are not comparable in Go anyway
+				return
+			}
+			fs = append(fs, fmt.Sprintf("(%s_f%d %s)", name, i, l.Sort))
+		}
+	}()
+	if !okAll || len(fs) == 0 {
+		return "", false
+	}
+	g.keySorts[name] = fmt.Sprintf("(declare-datatypes ((%s 0)) (((mk_%s %s))))", name, name, strings.Join(fs, " "))
+	return name, true
+}
+
+// keyCoerce converts a value to the index term of a map with key type kt (a datatype term for struct keys).
+func (g *Gen) keyCoerce(v Val, kt types.Type) Val {
+	v = g.coerce(v, kt)
+	if _, isStruct := kt.Underlying().(*types.Struct); isStruct && v.K == kStruct {
+		if n, ok := g.structKeySort(kt); ok {
+			return sv(kt, "(mk_"+n+" "+strings.Join(g.flatten(v), " ")+")")
+		}
+	}
+	return v
 }
 
 type Leaf struct {
